@@ -8,8 +8,8 @@ namespace vr {
 
 template <class V, class S> struct rebind : rebindv<V, S> {};
 
-// "object" operands of the bindings: a vector of another element type, a tuple or list of N numbers, or one number
-// (broadcast) — converted with the library's converting constructors.
+// "object" operands of the bindings: a vector of another element type (every vector class of that dimension the module
+// registers), a tuple or list of N numbers, or one number (broadcast) — converted with the library's converting constructors.
 template <class V> bool vec_from_object (const bp::object& o, V& out, bool allow_scalar)
 {
     typedef typename V::BaseType T;
@@ -24,6 +24,18 @@ template <class V> bool vec_from_object (const bp::object& o, V& out, bool allow
     if (e2.check ()) { out = V (e2 ()); return true; }
     bp::extract<const VD&> e3 (o);
     if (e3.check ()) { out = V (e3 ()); return true; }
+    {   // the remaining registered vector classes of this dimension (int64, short, unsigned char): same converting constructor
+        bp::extract<const typename rebind<V, int64_t>::type&> e (o);
+        if (e.check ()) { out = V (e ()); return true; }
+    }
+    {
+        bp::extract<const typename rebind<V, short>::type&> e (o);
+        if (e.check ()) { out = V (e ()); return true; }
+    }
+    {
+        bp::extract<const typename rebind<V, unsigned char>::type&> e (o);
+        if (e.check ()) { out = V (e ()); return true; }
+    }
     if (PyTuple_Check (o.ptr ()) || PyList_Check (o.ptr ())) { out = from_seq<V> (o); return true; }
     if (allow_scalar)
     {
